@@ -197,6 +197,9 @@ pub fn gen_cfg(prop: &str, seed: u64) -> RunCfg {
             let n = g.rng.range(4, 40);
             let w = swarm_weights(&mut g.rng, &W_DEFAULT);
             let mut ops = vec![];
+            if g.rng.pct(3) {
+                ops.extend(deep_chain(&mut g, &mut world, 0));
+            }
             for _ in 0..n {
                 if g.rng.pct(5) {
                     ops.extend(flush_block(&mut g, &mut world, spec.has_phys()));
@@ -294,7 +297,11 @@ pub fn gen_cfg(prop: &str, seed: u64) -> RunCfg {
             g.avoid_known = spec.has_ovl();
             let n = g.rng.range(4, 30);
             let w = swarm_weights(&mut g.rng, &W_DEFAULT);
-            let ops = gen_history(&mut g, &mut world, n, &w);
+            let mut ops = vec![];
+            if g.rng.pct(3) {
+                ops.extend(deep_chain(&mut g, &mut world, 0));
+            }
+            ops.extend(gen_history(&mut g, &mut world, n, &w));
             base_cfg(prop, "unrestricted", seed, &mut g, vec![spec], ops)
         }
         "C11" if g.rng.pct(7) => {
@@ -350,6 +357,9 @@ pub fn gen_cfg(prop: &str, seed: u64) -> RunCfg {
             let xfer: [u32; 19] = [1, 1, 0, 0, 2, 2, 1, 2, 3, 6, 2, 2, 8, 3, 2, 10, 10, 12, 12];
             let a = g.rng.range(3, 14);
             let mut ops = gen_history(&mut g, &mut world, a, &grow);
+            if g.rng.pct(4) {
+                ops.extend(deep_chain(&mut g, &mut world, 0));
+            }
             let b = g.rng.range(3, 16);
             let w = swarm_weights(&mut g.rng, &xfer);
             ops.extend(gen_history(&mut g, &mut world, b, &w));
@@ -783,6 +793,11 @@ pub fn gen_cfg(prop: &str, seed: u64) -> RunCfg {
             let base: [u32; 19] = [3, 3, 1, 1, 5, 5, 3, 9, 9, 6, 6, 6, 6, 9, 6, 4, 4, 5, 5];
             let w = swarm_weights(&mut g.rng, &base);
             let mut ops = vec![];
+            let deep = g.rng.below(100) < 1;
+            if deep {
+                ops.extend(deep_chain(&mut g, &mut world, 0));
+            }
+            let n = if deep { n.min(6) } else { n };
             for _ in 0..n {
                 ops.extend(gen_history(&mut g, &mut world, 1, &w));
                 if g.rng.pct(14) {
@@ -953,6 +968,41 @@ pub fn handle_script(g: &mut Gen, spec: &Spec) -> Vec<Op> {
         }
     }
     ops
+}
+
+/// a directory chain deeper than any fixed small bound (66..90 levels), a file at its bottom, then
+/// recursive operations over it
+pub fn deep_chain(g: &mut Gen, world: &mut World, fs: usize) -> Vec<Op> {
+    let depth = g.rng.range(66, 90);
+    let top = format!("/{}", g.name());
+    if world.m[fs].exists(&top) {
+        return vec![];
+    }
+    let mut p = top.clone();
+    for i in 1..depth {
+        p.push('/');
+        p.push(if i % 2 == 0 { 'p' } else { 'q' });
+    }
+    let leaf = format!("{}/leaf", p);
+    let mut ops = vec![Op::CreateDirAll(P::on(fs as u8, &p)), Op::Write { p: P::on(fs as u8, &leaf), append: false, script: vec![WStep::Write(g.payload())] }];
+    ops.push(Op::WalkDir(P::on(fs as u8, &top)));
+    let dfs = g.rng.below(g.nfs);
+    let dst = format!("/{}_copy", g.name());
+    if !world.m[dfs].exists(&dst) {
+        ops.push(if g.rng.pct(60) { Op::CopyDir(P::on(fs as u8, &top), P::on(dfs as u8, &dst)) } else { Op::MoveDir(P::on(fs as u8, &top), P::on(dfs as u8, &dst)) });
+    }
+    if g.rng.pct(60) {
+        ops.push(Op::RemoveDirAll(P::on(fs as u8, &top)));
+    }
+    let mut kept = vec![];
+    for op in ops {
+        if matches!(world.clone().apply(&op), Want::Unspec) {
+            continue;
+        }
+        world.apply(&op);
+        kept.push(op);
+    }
+    kept
 }
 
 /// a walk whose entries change between listing and visit
@@ -1128,6 +1178,19 @@ pub fn gen_any(prop: &str, seed: u64) -> Value {
 }
 
 pub fn run_any(prop: &str, cfg: &Value, trace: bool) -> RunOut {
+    let mut out = run_any_inner(prop, cfg, trace);
+    if let Some(e) = &out.harness_error {
+        if e.starts_with("LIBRARY-PANIC") {
+            // a legitimate call (create_dir_all / create_file of the initial contents) panicked
+            let msg: String = e.chars().filter(|c| !c.is_ascii_digit()).take(140).collect();
+            out.violations.push(Violation { property: prop.to_string(), key: format!("{}|{}|build|{}", prop, shape_of(cfg), msg), detail: e.clone(), step: 0 });
+            out.harness_error = None;
+        }
+    }
+    out
+}
+
+fn run_any_inner(prop: &str, cfg: &Value, trace: bool) -> RunOut {
     match engine_of(prop) {
         "seq" => match serde_json::from_value::<RunCfg>(cfg.clone()) {
             Ok(c) => run_cfg(&c, trace),
